@@ -114,7 +114,7 @@ fn case_typed<S: Spec>(sub: &str, id: u64, r: &mut Report) {
     match sub {
         "pairs" => {
             let (_, seed) = gen_seed(&mut p, S::SEED_LEN, wb, true);
-            let kind = p.below(5);
+            let kind = p.below(6);
             let cont = gen_continuation::<S>(&mut p);
             match kind {
                 // (i) clone at a random point of a random history
@@ -162,6 +162,35 @@ fn case_typed<S: Spec>(sub: &str, id: u64, r: &mut Report) {
                     let res = run_pair::<S>(&mut a, &mut b, &cont, r);
                     judge::<S>("clone_from", true, &res, json!({"seed": hex(&seed), "history": show_ops(&hist), "destination_seed": hex(&seed2), "destination_u32_calls": m, "continuation": show_ops(&cont)}), sub, id, r);
                     r.distinct(hkey(&[&"clone_from", &S::NAME, &seed, &show_ops(&hist)]));
+                }
+                // (iii') seeds whose word differences cancel in a fold (same delta in
+                // two words, xor or additive; rotated deltas; swapped words)
+                5 => {
+                    let words = S::SEED_LEN / wb;
+                    let bits = (wb * 8) as u32;
+                    let mask = if wb == 4 { 0xffff_ffffu64 } else { u64::MAX };
+                    let rd = |s: &[u8], i: usize| -> u64 { let mut v = 0u64; for k in 0..wb { v |= (s[i * wb + k] as u64) << (8 * k); } v };
+                    let wr = |s: &mut [u8], i: usize, v: u64| { for k in 0..wb { s[i * wb + k] = (v >> (8 * k)) as u8; } };
+                    let mut seed2 = seed.clone();
+                    if words >= 2 {
+                        let i = p.below(words as u64) as usize;
+                        let j = (i + 1 + p.below(words as u64 - 1) as usize) % words;
+                        let d = { let v = p.u64() & mask; if v == 0 { 1 } else { v } };
+                        let k = if p.chance(1, 2) { 0 } else { p.below(bits as u64) as u32 };
+                        let dr = if k == 0 { d } else { ((d << k) | (d >> (bits - k))) & mask };
+                        match p.below(3) {
+                            0 => { wr(&mut seed2, i, rd(&seed, i) ^ d); wr(&mut seed2, j, rd(&seed, j) ^ dr); }
+                            1 => { wr(&mut seed2, i, rd(&seed, i).wrapping_add(d) & mask); wr(&mut seed2, j, rd(&seed, j).wrapping_sub(d) & mask); }
+                            _ => { let (a, b) = (rd(&seed, i), rd(&seed, j)); wr(&mut seed2, i, b); wr(&mut seed2, j, a); }
+                        }
+                    } else {
+                        seed2[0] ^= 1;
+                    }
+                    let mut a = S::from_seed(&seed);
+                    let mut b = S::from_seed(&seed2);
+                    let res = run_pair::<S>(&mut a, &mut b, &cont, r);
+                    judge::<S>("related_seeds", false, &res, json!({"seed_a": hex(&seed), "seed_b": hex(&seed2)}), sub, id, r);
+                    r.distinct(hkey(&[&"related", &S::NAME, &seed, &seed2]));
                 }
                 // (iii) seeds differing in one bit, same history
                 _ => {
@@ -259,7 +288,14 @@ fn core_case(sub: &str, id: u64, r: &mut Report) {
             let mut a = C::from_seed(seed);
             let mut res = [0u32; 16];
             for _ in 0..gens { a.generate(&mut res); }
-            match p.below(3) {
+            match p.below(4) {
+                3 => {
+                    // clone_from into a core of a different age / seed
+                    let mut dst = C::from_seed(p.bytes(32).try_into().unwrap());
+                    for _ in 0..p.below(70) { dst.generate(&mut res); }
+                    dst.clone_from(&a);
+                    core_pair(a, dst, "clone_from", true, json!({"seed": hex(&seed), "generated_blocks": gens}), sub, id, r)
+                }
                 0 => core_pair(a.clone(), a, "clone", true, json!({"seed": hex(&seed), "generated_blocks": gens}), sub, id, r),
                 1 => {
                     // same seed, one more block generated: tables and counter differ
@@ -282,6 +318,17 @@ fn core_case(sub: &str, id: u64, r: &mut Report) {
             let mut a = C::from_seed(seed);
             let mut res = <C as BlockRngCore>::Results::default();
             for _ in 0..gens { a.generate(&mut res); }
+            if p.chance(1, 4) {
+                // clone_from into a core of a different age / seed
+                let mut dst = C::from_seed(p.bytes(32).try_into().unwrap());
+                for _ in 0..p.below(5) { dst.generate(&mut res); }
+                dst.clone_from(&a);
+                core_pair(a, dst, "clone_from", true, json!({"seed": hex(&seed), "generated_blocks": gens}), sub, id, r);
+                r.cov("core:IsaacCore");
+                r.cov("core:IsaacCore:clone_from");
+                r.distinct(hkey(&[&"core_clone_from", &which, &seed[..].to_vec(), &gens]));
+                return;
+            }
             // single-field perturbation through the serde image: 256 mem words, a, b, c
             let img = bincode::serialize(&a).unwrap();
             assert_eq!(img.len(), 259 * 4);
@@ -301,6 +348,16 @@ fn core_case(sub: &str, id: u64, r: &mut Report) {
             let mut a = C::from_seed(seed);
             let mut res = <C as BlockRngCore>::Results::default();
             for _ in 0..gens { a.generate(&mut res); }
+            if p.chance(1, 4) {
+                let mut dst = C::from_seed(p.bytes(32).try_into().unwrap());
+                for _ in 0..p.below(5) { dst.generate(&mut res); }
+                dst.clone_from(&a);
+                core_pair(a, dst, "clone_from", true, json!({"seed": hex(&seed), "generated_blocks": gens}), sub, id, r);
+                r.cov("core:Isaac64Core");
+                r.cov("core:Isaac64Core:clone_from");
+                r.distinct(hkey(&[&"core_clone_from", &which, &seed[..].to_vec(), &gens]));
+                return;
+            }
             let img = bincode::serialize(&a).unwrap();
             assert_eq!(img.len(), 259 * 8);
             let field = match p.below(5) { 0 => 256, 1 => 257, 2 => 258, _ => p.below(256) as usize };
@@ -395,7 +452,9 @@ pub fn run(ctx: &Ctx, only: Option<&Only>) -> Report {
     for c in ["Hc128Core", "IsaacCore", "Isaac64Core"] {
         total.floor(&format!("core:{}", c), 100);
     }
+    total.floor("Hc128Core:clone_from:eq=true", 10);
     for c in ["IsaacCore", "Isaac64Core"] {
+        total.floor(&format!("core:{}:clone_from", c), 10);
         for f in ["mem", "a", "b", "c"] {
             total.floor(&format!("core:{}:field:{}", c, f), 10);
         }
